@@ -14,7 +14,7 @@ pub fn run_dir() -> String {
 }
 
 pub fn unique(tag: &str) -> String {
-    format!("{}{}x{}", tag, std::process::id(), CTR.fetch_add(1, Ordering::Relaxed))
+    format!("{}{}x{}", tag, vkit::proc_token(), CTR.fetch_add(1, Ordering::Relaxed))
 }
 
 pub fn config<T: NamedConceptMgmt>(prefix: &str) -> T::Configuration {
